@@ -89,7 +89,7 @@ def nontrivial(c):
 
 def correspondence(pid, tier, seed):
     rng = random.Random(seed * 4099 + 11)
-    n = 3000 if tier == 'quick' else 40000
+    n = lib.size(3000, 40000, tier)
     cases = [gen_case(rng) for _ in range(n)]
     outs = [run_impl(c) for c in cases]
     pairs = [(c, r) for c, r in zip(cases, outs) if not r.get('skip')]
